@@ -4,6 +4,7 @@ import (
 	"go/ast"
 	"go/token"
 	"go/types"
+	"sort"
 	"strings"
 
 	"golang.org/x/tools/go/types/typeutil"
@@ -203,6 +204,7 @@ func runGpromise(c *Ctx) {
 	if d := c.declByName("R8", "promise", "Once", "Resolve"); d != nil {
 		name := core.FuncName(d.Obj)
 		var goDecl *core.FuncDecl // the goroutine body when it is a method instead of a literal
+		goLits := map[*ast.FuncLit]*core.FuncDecl{}
 		c.Walk("R8", &core.Config{Follow: samePkgFollow(d.Pkg.PkgPath)}, core.Entry{Decl: d}, func(p *core.Path) {
 			g := prepare(c, p)
 			storeIdx := -1
@@ -232,6 +234,8 @@ func runGpromise(c *Ctx) {
 				if ev.Kind == core.KGo && (ev.FunVal.Kind == core.VFuncLit || c.Prog.Decl(ev.Callee) != nil) {
 					if ev.FunVal.Kind != core.VFuncLit {
 						goDecl = c.Prog.Decl(ev.Callee)
+					} else if od := c.Prog.EnclosingDecl(ev.FunVal.Lit.Pos()); od != nil && od != d {
+						goLits[ev.FunVal.Lit] = od // the go statement lives in a helper Resolve calls
 					}
 					a.requireGuard("R8", name+"/single-flight", g, i, false, eq("nil", "promise.Once.prom"), "starting the callback goroutine")
 					a.note("R8", name+"/single-flight/same-section", ev.Pos, !(storeIdx >= 0 && g.sec[storeIdx] == g.sec[i] && g.sec[i] >= 0),
@@ -255,6 +259,15 @@ func runGpromise(c *Ctx) {
 		}
 		if goDecl != nil {
 			ges = append(ges, goEntry{core.Entry{Decl: goDecl}, name + ".go#1"})
+		}
+		var gls []*ast.FuncLit
+		for l := range goLits {
+			gls = append(gls, l)
+		}
+		sort.Slice(gls, func(i, j int) bool { return gls[i].Pos() < gls[j].Pos() })
+		for li, l := range gls {
+			od := goLits[l]
+			ges = append(ges, goEntry{core.Entry{Lit: l, Pkg: od.Pkg, Outer: od, Name: sprintf("%s.go#%d", name, li+1)}, sprintf("%s.go#%d", name, li+1)})
 		}
 		// o.prom is cleared only by the callback goroutine (after the callback returned): a nil
 		// assignment anywhere else in the package lets a second callback run start while the first
@@ -295,8 +308,15 @@ func runGpromise(c *Ctx) {
 			}
 			if ge.e.Decl != nil {
 				promRole = paramRole(c, ge.e.Decl, isProm)
-			} else if v := localWhere(d, d.Decl, func(v *types.Var, _ *ast.Ident) bool { return isProm(v.Type()) }); v != nil {
-				promRole = c.Role(v)
+			} else {
+				// the *Promise local of the function the literal lives in (Resolve, or the helper it calls)
+				od := d
+				if ge.e.Outer != nil {
+					od = ge.e.Outer
+				}
+				if v := localWhere(od, od.Decl, func(v *types.Var, _ *ast.Ident) bool { return isProm(v.Type()) }); v != nil {
+					promRole = c.Role(v)
+				}
 			}
 			c.Walk("R8", &core.Config{Follow: samePkgFollow(d.Pkg.PkgPath)}, ge.e, func(p *core.Path) {
 				g := prepare(c, p)
